@@ -144,8 +144,8 @@ def c01(ctx):
     if ctx.quick:
         jobs = hist_jobs(ctx, "c01", 64, 1200) + hist_jobs(ctx, "c01", 8, 700, flavour="asan", first=1000, per_proc=1)
     else:
-        jobs = hist_jobs(ctx, "c01", 1400, 3000, per_proc=20) + \
-            hist_jobs(ctx, "c01", 200, 1500, flavour="asan", first=100000, per_proc=8)
+        jobs = hist_jobs(ctx, "c01", 800, 3000, per_proc=20) + \
+            hist_jobs(ctx, "c01", 96, 1500, flavour="asan", first=100000, per_proc=8)
     agg = Agg().add(runner.run_jobs(jobs))
     extras = hist_common_extras(agg)
     return runner.finish(
@@ -378,7 +378,7 @@ def c03(ctx):
     if ctx.quick:
         jobs = crash_jobs(ctx, "c03", 16, 100, 0, 2, 9) + crash_jobs(ctx, "c03", 6, 40, 0, 2, 9, first=400, keypad=2600)
     else:
-        jobs = crash_jobs(ctx, "c03", 128, 400, 0, 3, 40) + crash_jobs(ctx, "c03", 32, 160, 0, 3, 30, first=400, keypad=2600)
+        jobs = crash_jobs(ctx, "c03", 48, 250, 0, 3, 20) + crash_jobs(ctx, "c03", 12, 120, 0, 3, 16, first=400, keypad=2600)
     agg = Agg().add(runner.run_jobs(jobs))
     return runner.finish(
         "C03", "fault_enumeration", ctx.tier, ctx.seed, ctx.t0, agg,
@@ -401,7 +401,7 @@ def c05(ctx):
     if ctx.quick:
         jobs = crash_jobs(ctx, "c05", 14, 60, 0, 2, 6) + crash_jobs(ctx, "c05", 2, 40, 0, 2, 6, first=400, keypad=2600)
     else:
-        jobs = crash_jobs(ctx, "c05", 72, 250, 0, 3, 30) + crash_jobs(ctx, "c05", 8, 120, 0, 3, 30, first=400, keypad=2600)
+        jobs = crash_jobs(ctx, "c05", 40, 200, 0, 3, 16) + crash_jobs(ctx, "c05", 6, 100, 0, 3, 16, first=400, keypad=2600)
     agg = Agg().add(runner.run_jobs(jobs))
     return runner.finish(
         "C05", "fault_enumeration", ctx.tier, ctx.seed, ctx.t0, agg,
@@ -431,7 +431,7 @@ def c12(ctx):
     if ctx.quick:
         plan = [("rel", w, 2, 5) for w in range(6)] + [("asan", 20 + w, 4, 3) for w in range(1)]
     else:
-        plan = [("rel", w, 2, 40) for w in range(48)] + [("asan", 100 + w, 4, 12) for w in range(16)]
+        plan = [("rel", w, 2, 20) for w in range(24)] + [("asan", 100 + w, 4, 8) for w in range(8)]
     for flavour, w, nshards, per_site in plan:
         for k in range(nshards):
             d = os.path.join(ctx.scratch, "f-%s-%d-%d" % (flavour, w, k))
@@ -607,9 +607,9 @@ def c04(ctx):
             conc_jobs(ctx, 8, 50, native=0, variant=[0, 1], first=200000, tag="c04") + \
             enum_jobs(ctx, 200, 6, 1, 1, tag="c04")
     else:
-        jobs = crash_jobs(ctx, "c04", 64, 150, 0, 2, 16) + \
-            conc_jobs(ctx, 32, 600, native=0, variant=[0, 1], first=200000, tag="c04") + \
-            conc_jobs(ctx, 8, 150, native=1, variant=[0, 1], first=2000000, tag="c04n") + \
+        jobs = crash_jobs(ctx, "c04", 32, 150, 0, 2, 12) + \
+            conc_jobs(ctx, 16, 500, native=0, variant=[0, 1], first=200000, tag="c04") + \
+            conc_jobs(ctx, 4, 100, native=1, variant=[0, 1], first=2000000, tag="c04n") + \
             enum_jobs(ctx, 200, 4, 2, 16, tag="c04")
     agg = Agg().add(runner.run_jobs(jobs))
     extras = crash_extras(agg)
@@ -804,7 +804,8 @@ def c11(ctx):
         plan = [("rel", db, 5, 48, 0) for db in range(3)] + [("asan", 10, 12, 96, 0)]
         plan = [(fl, db, n, st, ex, range(n) if fl == "rel" else range(1)) for fl, db, n, st, ex in plan]
     else:
-        plan = [("rel", db, 16, 1, 1, range(16)) for db in range(6)] + [("asan", 10 + db, 16, 8, 0, range(4)) for db in range(2)]
+        plan = [("rel", db, 16, 1, 1, range(16)) for db in range(2)] + [("rel", db, 16, 6, 0, range(16)) for db in range(2, 6)] + \
+            [("asan", 10 + db, 16, 8, 0, range(4)) for db in range(2)]
     for flavour, db, nshards, stride, exhaustive, shards in plan:
         for k in shards:
             d = os.path.join(ctx.scratch, "cor-%s-%d-%d" % (flavour, db, k))
@@ -824,7 +825,7 @@ def c11(ctx):
         "C11", "fault_enumeration", ctx.tier, ctx.seed, ctx.t0, agg,
         rule="generated databases (several tables over >=3 levels, small blocks, snappy/bloom variants, live WAL, MANIFEST); "
              "one alteration per case: each bit flip, byte:=00/ff, truncation, zero-filled 512-byte sector at every byte of "
-             "footer/index/metaindex/filter/trailers and a stride over data bytes (every byte in thorough) of every table, "
+             "footer/index/metaindex/filter/trailers and a stride over data bytes (thorough: every byte of two databases, stride 6 over four more) of every table, "
              "WAL, MANIFEST and CURRENT; tables under paranoid_checks+verify_checksums: get/scan correct or error status; "
              "WAL/MANIFEST/CURRENT: contents = fold of the whole batches whose marker is present; distinct = (file kind, "
              "region, alteration kind) classes",
@@ -1074,8 +1075,8 @@ def c18(ctx):
     if ctx.quick:
         jobs = J("asan", "direct", 0, 240000, 10) + J("asan", "db", 0, 2400, 6) + J("rel", "direct", 1000000, 100000, 1)
     else:
-        jobs = (J("asan", "direct", 0, 40000000, 64) + J("asan", "db", 0, 240000, 64) +
-                J("rel", "direct", 100000000, 4000000, 8) + J("rel", "db", 1000000, 40000, 8))
+        jobs = (J("asan", "direct", 0, 6400000, 64) + J("asan", "db", 0, 38400, 64) +
+                J("rel", "direct", 100000000, 1600000, 8) + J("rel", "db", 1000000, 12800, 8))
     agg = Agg().add(runner.run_jobs(jobs))
     c = agg.counts
     extras = dict(cases=agg.n("cases"), cases_that_entered_the_decoder_proper=agg.n("entered"),
